@@ -36,6 +36,7 @@ from pvc.core import Sym
 from . import common
 MODULES = ['dassh.mesh_functions', 'dassh.core'] + common.RR_MODULES + common.UR_MODULES
 PROPERTY = 'C10'
+LEAN_LEMMAS = ['telescope', 'exchange']        # /verif/lean/Ghost.lean, checked in the thorough tier
 FUNCTIONS = ['dassh.mesh_functions:_map_asm2gap (nested loops cut from source; symbolic array length)',
              'dassh.region_rodded:RoddedRegion.calculate_xbnds', 'dassh.region_unrodded:SingleNodeHomogeneous.calculate_xbnds',
              'dassh.core:Core._calculate_gap_xbnds',
